@@ -67,6 +67,10 @@ impl<const NT: usize, const NH: usize> LState<NT, NH> {
     }
 }
 
+/// (harness) a `Lower` that manages `frames` frames but has no metadata behind it
+pub(crate) fn lower_without_metadata(frames: usize) -> Lower<'static> {
+    Lower { len: frames, bitfields: &[], children: &[] }
+}
 /// A frame count that needs exactly NT trees (the last one possibly partial).
 pub(crate) fn any_frames<const NT: usize>() -> usize {
     let frames: usize = kani::any();
